@@ -399,96 +399,275 @@ func c07(c *core.Ctx) {
 		}
 	}
 
-	rW := c.Rule("C07.window", "the binary searches of findTimeRangeBounds realise [from,to): ascending start = first ts >= from, end = first ts >= to minus one; descending start = first ts < to, end = first ts < from minus one (strict < comparisons, correct bound per search)", 4)
+	rW := c.Rule("C07.window", "findTimeRangeBounds realises the half-open window [from,to) on both index directions: on the ascending branch start = first index with ts >= from and end = (first index with ts >= to) - 1; on the descending branch start = first index with ts < to and end = (first index with ts < from) - 1; the branch is chosen by a test that is true exactly for the ascending sort orders. Each search is reduced to 'first index where P(ts)' whether it is a hand-written bisection or a sort.Search call", 4)
 	{
 		f := c.Fn(pkgBeacon + ".beacon.findTimeRangeBounds")
 		info := f.Info()
-		type search struct {
-			asc     bool
-			bound   string
-			op      token.Token
-			thenSet string // l or r
-			target  string // startIdx / endIdx
-			minus1  bool
-			pos     token.Pos
+		sig := f.Obj.Type().(*types.Signature)
+		body := f.Decl.Body
+		// which bound an expression denotes: a local assigned from <param i>....UnixNano()
+		boundKind := func(e ast.Expr) string {
+			obj := core.ObjOf(info, e)
+			if obj == nil {
+				return ""
+			}
+			kind := ""
+			ast.Inspect(body, func(x ast.Node) bool {
+				as, ok := x.(*ast.AssignStmt)
+				if !ok || len(as.Lhs) != len(as.Rhs) {
+					return true
+				}
+				for i, l := range as.Lhs {
+					if core.ObjOf(info, l) != obj {
+						continue
+					}
+					ast.Inspect(as.Rhs[i], func(y ast.Node) bool {
+						if id, isId := y.(*ast.Ident); isId && sig.Params().Len() >= 2 {
+							if info.Uses[id] == sig.Params().At(0) {
+								kind = "from"
+							}
+							if info.Uses[id] == sig.Params().At(1) {
+								kind = "to"
+							}
+						}
+						return true
+					})
+				}
+				return true
+			})
+			return kind
 		}
-		var found []search
-		var walk func(n ast.Node, asc bool, known bool)
-		walk = func(n ast.Node, asc bool, known bool) {
-			ast.Inspect(n, func(x ast.Node) bool {
-				switch v := x.(type) {
-				case *ast.IfStmt:
-					if id, ok := core.Unparen(v.Cond).(*ast.Ident); ok && strings.Contains(strings.ToLower(id.Name), "asc") {
-						walk(v.Body, true, true)
-						if v.Else != nil {
-							walk(v.Else, false, true)
+		// result variables
+		var startObj, endObj types.Object
+		ast.Inspect(body, func(x ast.Node) bool {
+			if ret, ok := x.(*ast.ReturnStmt); ok && len(ret.Results) == 2 {
+				a, b2 := core.ObjOf(info, ret.Results[0]), core.ObjOf(info, ret.Results[1])
+				if a != nil && b2 != nil {
+					startObj, endObj = a, b2
+				}
+			}
+			return true
+		})
+		// ascending sort orders: constants assigned to sortOrder by methods whose comparator is <
+		ascConst := map[types.Object]bool{}
+		descConst := map[types.Object]bool{}
+		sortOrderF := p.MustField(pkgBeacon, "beacon", "sortOrder")
+		for _, m := range p.FuncsIn(pkgBeacon) {
+			if m.Decl.Body == nil || m.Decl.Recv == nil {
+				continue
+			}
+			_, op, ok := comparatorOf(m)
+			if !ok {
+				continue
+			}
+			ast.Inspect(m.Decl.Body, func(x ast.Node) bool {
+				if as, isAs := x.(*ast.AssignStmt); isAs && len(as.Lhs) == 1 && len(as.Rhs) == 1 && core.FieldOf(m.Info(), as.Lhs[0]) == sortOrderF {
+					if k, isK := core.ObjOf(m.Info(), as.Rhs[0]).(*types.Const); isK {
+						if op == token.LSS {
+							ascConst[k] = true
 						}
-						return false
-					}
-					// an if that holds a for loop and the assignment after it
-					var loop *ast.ForStmt
-					for i, st := range v.Body.List {
-						if fs, ok := st.(*ast.ForStmt); ok {
-							loop = fs
-							s := search{asc: asc, pos: fs.Pos()}
-							ast.Inspect(fs.Body, func(y ast.Node) bool {
-								if is, ok := y.(*ast.IfStmt); ok {
-									if be, ok := core.Unparen(is.Cond).(*ast.BinaryExpr); ok {
-										if _, isCall := core.Unparen(be.X).(*ast.CallExpr); isCall {
-											s.op = be.Op
-											s.bound = core.ExprStr(be.Y)
-											if len(is.Body.List) == 1 {
-												if as, ok := is.Body.List[0].(*ast.AssignStmt); ok {
-													s.thenSet = core.ExprStr(as.Lhs[0])
-												}
-											}
-										}
-									}
-								}
-								return true
-							})
-							if i+1 < len(v.Body.List) {
-								if as, ok := v.Body.List[i+1].(*ast.AssignStmt); ok {
-									s.target = core.ExprStr(as.Lhs[0])
-									if be, ok := core.Unparen(as.Rhs[0]).(*ast.BinaryExpr); ok && be.Op == token.SUB && isConst(info, be.Y, 1) {
-										s.minus1 = true
-									}
-								}
-							}
-							if known {
-								found = append(found, s)
-							}
+						if op == token.GTR {
+							descConst[k] = true
 						}
-					}
-					if loop != nil {
-						return false
 					}
 				}
 				return true
 			})
 		}
-		walk(f.Decl.Body, false, false)
-		want := map[string]search{
-			"asc/startIdx":  {bound: "fromNano", op: token.LSS, thenSet: "l", minus1: false},
-			"asc/endIdx":    {bound: "toNano", op: token.LSS, thenSet: "l", minus1: true},
-			"desc/startIdx": {bound: "toNano", op: token.LSS, thenSet: "r", minus1: false},
-			"desc/endIdx":   {bound: "fromNano", op: token.LSS, thenSet: "r", minus1: true},
-		}
-		seen := map[string]bool{}
-		for _, s := range found {
-			key := map[bool]string{true: "asc", false: "desc"}[s.asc] + "/" + s.target
-			w, ok := want[key]
-			if !ok {
+		// the direction test
+		var dirIf *ast.IfStmt
+		thenAsc, classified := false, false
+		for _, st := range body.List {
+			is, ok := st.(*ast.IfStmt)
+			if !ok || is.Else == nil {
 				continue
 			}
-			seen[key] = true
-			good := s.bound == w.bound && s.op == w.op && s.thenSet == w.thenSet && s.minus1 == w.minus1
-			rW.Check(good, f.Key+":"+key, s.pos, "ts "+s.op.String()+" "+s.bound,
-				"search "+key+" compares ts "+s.op.String()+" "+s.bound+" then moves "+s.thenSet+" (minus1="+b2s(s.minus1)+"); the half-open window needs ts < "+w.bound+" then "+w.thenSet)
+			cond := is.Cond
+			if id, isId := core.Unparen(cond).(*ast.Ident); isId {
+				if def := localDef(info, body, info.Uses[id]); def != nil {
+					cond = def
+				}
+			}
+			set := map[types.Object]bool{}
+			pure := true
+			var collect func(e ast.Expr)
+			collect = func(e ast.Expr) {
+				e = core.Unparen(e)
+				be, isB := e.(*ast.BinaryExpr)
+				if !isB {
+					pure = false
+					return
+				}
+				switch be.Op {
+				case token.LOR:
+					collect(be.X)
+					collect(be.Y)
+				case token.EQL:
+					if core.FieldOf(info, be.X) == sortOrderF {
+						if k, isK := core.ObjOf(info, be.Y).(*types.Const); isK {
+							set[k] = true
+							return
+						}
+					}
+					pure = false
+				default:
+					pure = false
+				}
+			}
+			collect(cond)
+			if !pure || len(set) == 0 {
+				continue
+			}
+			same := func(a, b map[types.Object]bool) bool {
+				if len(a) != len(b) {
+					return false
+				}
+				for k := range a {
+					if !b[k] {
+						return false
+					}
+				}
+				return true
+			}
+			dirIf = is
+			if same(set, ascConst) {
+				thenAsc, classified = true, true
+			} else if same(set, descConst) {
+				thenAsc, classified = false, true
+			}
 		}
-		for k := range want {
-			if !seen[k] {
-				rW.Bad(f.Key+":"+k, f.Decl.Pos(), "binary search not found (shape changed: review the rule)")
+		if dirIf == nil || !classified || startObj == nil || endObj == nil {
+			rW.Bad(f.Key+":direction-test", f.Decl.Pos(), "the branch between ascending and descending search is not a test of sortOrder against exactly the ascending (or exactly the descending) sort orders: an index direction is searched with the wrong comparison")
+		} else {
+			type pred struct {
+				op     token.Token
+				bound  string
+				minus1 bool
+				pos    token.Pos
+				ok     bool
+			}
+			norm := func(be *ast.BinaryExpr) (token.Token, string, bool) {
+				// ts OP bound, ts being a call
+				x, y, op := core.Unparen(be.X), core.Unparen(be.Y), be.Op
+				if _, isCall := x.(*ast.CallExpr); !isCall {
+					if _, yCall := y.(*ast.CallExpr); yCall {
+						x, y, op = y, x, mirror(op)
+					} else {
+						return token.ILLEGAL, "", false
+					}
+				}
+				k := boundKind(y)
+				return op, k, k != ""
+			}
+			extract := func(branch ast.Stmt, target types.Object) pred {
+				out := pred{}
+				ast.Inspect(branch, func(x ast.Node) bool {
+					blk, ok := x.(*ast.BlockStmt)
+					if !ok {
+						return true
+					}
+					for i, st := range blk.List {
+						as, isAs := st.(*ast.AssignStmt)
+						if !isAs || len(as.Lhs) != 1 || core.ObjOf(info, as.Lhs[0]) != target {
+							continue
+						}
+						rhs := core.Unparen(as.Rhs[0])
+						out.pos = as.Pos()
+						if be, isB := rhs.(*ast.BinaryExpr); isB && be.Op == token.SUB && isConst(info, be.Y, 1) {
+							out.minus1 = true
+							rhs = core.Unparen(be.X)
+						}
+						// sort.Search(n, func(i int) bool { return ts OP bound })
+						if call, isCall := rhs.(*ast.CallExpr); isCall && core.IsCallTo(info, call, "sort.Search") && len(call.Args) == 2 {
+							if lit, isLit := core.Unparen(call.Args[1]).(*ast.FuncLit); isLit && len(lit.Body.List) == 1 {
+								if ret, isRet := lit.Body.List[0].(*ast.ReturnStmt); isRet && len(ret.Results) == 1 {
+									if be, isB := core.Unparen(ret.Results[0]).(*ast.BinaryExpr); isB {
+										out.op, out.bound, out.ok = norm(be)
+									}
+								}
+							}
+							continue
+						}
+						// hand-written bisection: result variable = the local moved by `x = m + 1`
+						resObj := core.ObjOf(info, rhs)
+						if resObj == nil || i == 0 {
+							continue
+						}
+						loop, isLoop := blk.List[i-1].(*ast.ForStmt)
+						if !isLoop {
+							continue
+						}
+						ast.Inspect(loop.Body, func(y ast.Node) bool {
+							is, isIf := y.(*ast.IfStmt)
+							if !isIf {
+								return true
+							}
+							be, isB := core.Unparen(is.Cond).(*ast.BinaryExpr)
+							if !isB {
+								return true
+							}
+							op, k, okN := norm(be)
+							if !okN {
+								return true
+							}
+							// which variable does the then-branch move, and how
+							thenMovesResUp := false
+							thenMovesOther := false
+							for _, st2 := range is.Body.List {
+								if a2, ok2 := st2.(*ast.AssignStmt); ok2 && len(a2.Lhs) == 1 {
+									if core.ObjOf(info, a2.Lhs[0]) == resObj {
+										if b3, isB3 := core.Unparen(a2.Rhs[0]).(*ast.BinaryExpr); isB3 && b3.Op == token.ADD && isConst(info, b3.Y, 1) {
+											thenMovesResUp = true
+										}
+									} else {
+										thenMovesOther = true
+									}
+								}
+							}
+							switch {
+							case thenMovesResUp: // C true -> search to the right: first index where !C
+								out.op, out.bound, out.ok = core.Negate(op), k, true
+							case thenMovesOther: // C true -> this index is a candidate: first index where C
+								out.op, out.bound, out.ok = op, k, true
+							}
+							return true
+						})
+					}
+					return true
+				})
+				return out
+			}
+			var ascBranch, descBranch ast.Stmt = dirIf.Body, dirIf.Else
+			if !thenAsc {
+				ascBranch, descBranch = dirIf.Else, dirIf.Body
+			}
+			want := []struct {
+				key    string
+				branch ast.Stmt
+				target types.Object
+				op     token.Token
+				bound  string
+				minus1 bool
+				text   string
+			}{
+				{"asc/start", ascBranch, startObj, token.GEQ, "from", false, "first index with ts >= from"},
+				{"asc/end", ascBranch, endObj, token.GEQ, "to", true, "(first index with ts >= to) - 1"},
+				{"desc/start", descBranch, startObj, token.LSS, "to", false, "first index with ts < to"},
+				{"desc/end", descBranch, endObj, token.LSS, "from", true, "(first index with ts < from) - 1"},
+			}
+			for _, w := range want {
+				got := extract(w.branch, w.target)
+				construct := f.Key + ":" + w.key
+				if !got.ok {
+					rW.Undecided(construct, got.pos, "the search that sets this bound is neither a bisection of the recognised shape nor a sort.Search call")
+					continue
+				}
+				m1 := ""
+				if got.minus1 {
+					m1 = " - 1"
+				}
+				rW.Check(got.op == w.op && got.bound == w.bound && got.minus1 == w.minus1, construct, got.pos, w.text,
+					"this bound is (first index with ts "+got.op.String()+" "+got.bound+")"+m1+"; the half-open window [from,to) needs "+w.text+": a record whose timestamp equals a bound is returned or dropped on the wrong side")
 			}
 		}
 	}
